@@ -33,6 +33,15 @@ Inductive case :=
   (* Cache.additionalAnswer on an upstream answer: 0 = served as is, no sub-query; 1 = SERVFAIL
      (alias to the question itself); 2 = the alias target [target] was re-resolved *)
 | CaseScan (q : question) (rcode : N) (answer : list rr) (obs : N) (target : name)
+  (* Cache.additionalAnswer in full, through the real cache: upstream (rcode, answer), the world the
+     scripted Queryer answers from, and the reply the client got (rcode, Answer) *)
+| CaseChase (q : question) (rcode : N) (answer : list rr) (o : oracle) (obs_rcode : N) (obs_answer : list rr)
+  (* lab: the client's reply to the attack question, with the sub-queries the cache issued and what
+     they returned as the oracle *)
+| CaseLabReply (auth : name) (q : question) (m : umsg) (o : oracle) (obs_rcode : N) (obs_answer : list rr)
+  (* a history on the resolver's NS-address cache: referrals processed by checkGlueRR and addresses
+     filed after an NS-host lookup; then the cache content for the probed names *)
+| CaseGlueHist (local : list ipaddr) (evs : list glue_event) (probes : list (name * option (list ipaddr)))
   (* level bookkeeping of the real processDelegation / resolveWithCachedNameservers *)
 | CaseDescent (start : name) (steps : list dstep) (obs_zone : name) (obs_level : nat)
   (* lab: the server for [auth] sent [m] for question [q]; what became visible *)
@@ -80,6 +89,25 @@ Fixpoint kept_indices {A} (f : A -> bool) (l : list A) (i : N) : list N :=
   | [] => []
   | x :: r => if f x then i :: kept_indices f r (i + 1) else kept_indices f r (i + 1)
   end.
+
+Definition rdata_eqb (a b : rdata) : bool :=
+  match a, b with
+  | RdA x, RdA y => bytes_eqb x y
+  | RdName x, RdName y => bytes_list_eqb x y
+  | RdSig x, RdSig y => x =? y
+  | RdOther, RdOther => true
+  | _, _ => false
+  end.
+(* records as they appear on the wire, TTL aside (the cache rewrites it) *)
+Definition rr_eqb (a b : rr) : bool :=
+  bytes_list_eqb (rr_owner a) (rr_owner b) && (rr_type a =? rr_type b) && (rr_class a =? rr_class b) && rdata_eqb (rr_data a) (rr_data b).
+Definition chased_eqb (c : chased) (rcode : N) (answer : list rr) : bool :=
+  match c with
+  | ChServfail => (rcode =? RC_SERVFAIL) && match answer with [] => true | _ => false end
+  | ChMsg rc a => (rc =? rcode) && list_eqb rr_eqb a answer
+  end.
+Definition oracle_records (o : oracle) : list rr :=
+  flat_map (fun p => match snd p with SubResp _ a _ => a | SubErr => [] end) o.
 
 (* ------------------------------------------------------- specification side *)
 (* plain prefix test on canonical label lists *)
@@ -166,6 +194,15 @@ Definition check_case (c : case) : bool :=
         | ScanChase t => (obs =? 2) && bytes_list_eqb t target
         end
       else obs =? 0
+  | CaseChase q rcode answer o orc oans => chased_eqb (additional_answer q rcode answer o) orc oans
+  | CaseLabReply auth q m o orc oans =>
+      match client_reply auth q m o with
+      | Some c => chased_eqb c orc oans
+      | None => true   (* negative answers, referrals, errors: judged by CaseLab *)
+      end
+  | CaseGlueHist local evs probes =>
+      let c := glue_history local evs in
+      forallb (fun p => opt_eqb (list_eqb ipaddr_eqb) (glue_lookup (fst p) c) (snd p)) probes
   | CaseDescent start steps z lv =>
       let '(mz, ml) := descent start steps in name_eqb mz z && Nat.eqb ml lv
   | CaseLab auth level q m vis glue deleg later =>
@@ -183,6 +220,28 @@ Definition check_case (c : case) : bool :=
         forallb negb vis && match glue with [] => true | _ => false end &&
         match deleg with [] => true | _ => false end && negb later
   end.
+
+Definition spec_glue_source (local : list ipaddr) (host : name) (a : ipaddr) (evs : list glue_event) : bool :=
+  existsb (fun e =>
+    match e with
+    | GlueReferral level qname hosts extra answers =>
+        existsb (spec_same_name host) hosts &&
+        ((* the glue route: host inside the zone cut out of qname at the level, usable glue for it *)
+         (let zone := firstn level qname in
+          Nat.eqb (length zone) level && spec_in_zone zone host &&
+          existsb (fun r => spec_same_name (rr_owner r) host && (rr_type r =? T_A) &&
+                            match rr_data r with
+                            | RdA ip => match usable_addr local ip with Some a' => ipaddr_eqb a a' | None => false end
+                            | _ => false
+                            end) extra)
+         ||
+         (* the lookup route: an address lookup for this very host returned it *)
+         existsb (fun p => spec_same_name (fst p) host &&
+                           existsb (fun r => match rr_data r with
+                                             | RdA ip => match usable_addr local ip with Some a' => ipaddr_eqb a a' | None => false end
+                                             | _ => false
+                                             end) (snd p)) answers)
+    end) evs.
 
 (* -------------------------------------------------------------- spec_case *)
 Definition spec_case (c : case) : bool :=
@@ -225,6 +284,21 @@ Definition spec_case (c : case) : bool :=
       (* an answer served without a sub-query either holds a record of the asked type or no alias to follow *)
       implb ((obs =? 0) && chase_applies q rcode)
             (existsb (fun r => rr_type r =? q_type q) answer || negb (existsb (fun r => rr_type r =? T_CNAME) answer))
+  | CaseChase q rcode answer o orc oans =>
+      (* whatever the reply carries beyond the upstream answer was obtained by re-resolution *)
+      forallb (fun r => existsb (rr_eqb r) answer || existsb (rr_eqb r) (oracle_records o)) oans
+  | CaseLabReply auth q m o orc oans =>
+      (* a record of the attacker's message owned outside its zone is in the reply only if a
+         re-resolution (through the name's own delegation path) returned the very same record *)
+      forallb (fun r => implb (existsb (rr_eqb r) (u_answer m ++ u_ns m ++ u_extra m) && negb (spec_in_zone auth (rr_owner r)))
+                              (existsb (rr_eqb r) (oracle_records o))) oans
+  | CaseGlueHist local evs probes =>
+      (* an address is on file for a host only if a referral of a zone enclosing the host carried it
+         as usable glue for one of its NS hosts, or an address lookup for that very host returned it *)
+      forallb (fun p => match snd p with
+                        | None => true
+                        | Some addrs => forallb (fun a => spec_addr_ok local a && spec_glue_source local (fst p) a evs) addrs
+                        end) probes
   | CaseDescent start steps z lv =>
       (* the glue test cuts qname at rs.level labels: that is the asked zone or deeper only if *)
       Nat.leb (length z) lv
